@@ -30,6 +30,8 @@
 (*                            share the address space                      *)
 (*   "overlap_containment_gap" memRangeOverlap misses "copy range strictly *)
 (*                            contains the buffer"                         *)
+(*   "empty_copy_no_complete" a copy of zero bytes that needs no flush has *)
+(*                            no request whose answer could complete it    *)
 (***************************************************************************)
 EXTENDS CopyOps, FiniteSets, TLC
 
@@ -82,7 +84,7 @@ DevOfVA(a) == PageDev[VPage(a) + 1]
 VAofPA(p) == CHOOSE a \in VAddr : PA(a) = p
 DevOfPA(p) == DevOfVA(VAofPA(p))
 
-Idle == [k |-> "none", id |-> 0, ctx |-> 0, va |-> 0, n |-> 0, reqs |-> {}, raw |-> <<>>, w |-> {}]
+Idle == [k |-> "none", id |-> 0, ctx |-> 0, va |-> 0, n |-> 0, reqs |-> {}, made |-> 0, raw |-> <<>>, w |-> {}]
 
 \* ------------------------------------------------------------ page-wise split
 \* processMemCopy*Command: one request per page touched, [va, va+n) in total.
@@ -155,6 +157,7 @@ StartCopy(k, c, va, n) ==
         /\ awaiting' = awaiting \o pc        \* pieces wait for cyclesPer{H2D,D2H}
         /\ cur' = [Idle EXCEPT !.k = k, !.id = ncmd + 1, !.ctx = c, !.va = va, !.n = n,
                                !.reqs = {fl[i].id : i \in 1..Len(fl)} \cup {pc[i].id : i \in 1..Len(pc)},
+                               !.made = Len(fl) + Len(pc),
                                !.raw = [i \in 1..n |-> NoVal]]
         /\ issued' = [issued EXCEPT ![ncmd + 1] = {pc[i].id : i \in 1..Len(pc)}]
   /\ UNCHANGED <<dram, cache, bdirty, nlive, chan, rsp, arch, done, answered, taken, result, expect>>
@@ -228,6 +231,12 @@ Complete(c) ==
           /\ UNCHANGED <<result, expect>>
      ELSE UNCHANGED <<arch, result, expect>>
 
+\* a copy that moves nothing and flushes nothing completes when it is processed
+CompleteEmpty ==
+  /\ cur.k \in {"h2d", "d2h"} /\ cur.made = 0 /\ "empty_copy_no_complete" \notin Deviations
+  /\ Complete(cur.id)
+  /\ UNCHANGED <<dram, cache, bdirty, nlive, ncmd, awaiting, toSend, chan, rsp, nreq, answered, taken, issued>>
+
 \* Tick: the response at the head of the GPU port
 DrvTake(g) ==
   /\ rsp[g] # <<>>
@@ -246,13 +255,13 @@ DrvTake(g) ==
 Next ==
   \/ \E c \in Ctxs, g \in GPUs, w \in KWrites : StartKern(c, g, w)
   \/ \E k \in {"h2d", "d2h"}, c \in Ctxs, r \in Ranges : StartCopy(k, c, r[1], r[2])
-  \/ Alloc \/ Release \/ DrvSend
+  \/ Alloc \/ Release \/ DrvSend \/ CompleteEmpty
   \/ \E g \in GPUs : GPUHandle(g) \/ DrvTake(g)
   \/ \E p \in PAddr : Evict(p)
 
 Spec == Init /\ [][Next]_vars
 
-Fairness == /\ WF_vars(Release) /\ WF_vars(DrvSend)
+Fairness == /\ WF_vars(Release) /\ WF_vars(DrvSend) /\ WF_vars(CompleteEmpty)
             /\ \A g \in GPUs : WF_vars(GPUHandle(g)) /\ WF_vars(DrvTake(g))
 FairSpec == Spec /\ Fairness
 
@@ -279,7 +288,7 @@ OutsideUntouched == cur.k = "none" => \A a \in VAddr : Visible(a) = arch[a]
 Stuck == /\ awaiting = <<>> /\ toSend = <<>>
          /\ \A g \in GPUs : chan[g] = <<>> /\ rsp[g] = <<>>
 \* a started command cannot be left behind with nothing in flight
-NoHang == ~(cur.k # "none" /\ Stuck)
+NoHang == ~(cur.k # "none" /\ Stuck /\ (cur.made > 0 \/ "empty_copy_no_complete" \in Deviations))
 
 \* every started command completes
 Completes == \A c \in 1..MaxCmds : [](ncmd >= c => <>(done[c] = 1))
